@@ -124,7 +124,13 @@ def seed_positions(prog, r):
                 opener = [x for x in stmts if x.opens == s.closes][0]
                 nl = list(lines)
                 nl[ln] = " " * (2 * s.depth) + "end"
-                out.append(("construct-left-open", variant(nl), name, [L(opener), ln], None, s.depth + 1))
+                ok_lines = [L(opener), ln]
+                # SELECT TYPE: the innermost open scope is the last type guard region, reporting there is right as well
+                for x in stmts:
+                    for _d, heads in getattr(x, "seltype", ()):
+                        if heads and heads[0] is opener:
+                            ok_lines += [L(h) for h in heads[1:]]
+                out.append(("construct-left-open", variant(nl), name, sorted(set(ok_lines)), None, s.depth + 1))
             # 8 second contains
             if s.kind == "contains":
                 out.append(("second-contains", variant(ins(ln + 1, lines[ln])), name, [ln + 1], None, s.depth))
